@@ -633,3 +633,68 @@ def rule_pcall(ctx, R):
         loc = "%s:%s" % (wb.file, o[-1]) if wb is not None and o[-1] else b.loc()
         R.finding(fn, "pcall:error-raised-outside-helper:%s" % where.split("::")[-1],
                   "an error returned to the Lua VM from the body shared by redis.call and redis.pcall is raised in %s, not by the helper that honours is_pcall: under redis.pcall this condition aborts the script instead of letting it continue" % where.split("::")[-1], loc)
+
+
+# ---- R-LUA-REPLY-BUDGET -----------------------------------------------------------------------------
+_INT_REF = re.compile(r"^&(mut )?(usize|u64|u32|i64|isize|std::cell::Cell<(usize|u64|u32)>|std::sync::atomic::Atomic\w+)$")
+
+
+def rule_reply_budget(ctx, R):
+    """the conversion of a script's return value runs after the script has finished -- outside
+    the instruction hook -- and builds Rust values the Lua memory limit does not see.  Lua values
+    are a graph (a table may be referenced many times, `__index` answers any index), so a depth
+    limit does not bound the work.  Every loop of the Lua -> RESP conversion that reads the Lua
+    state (mlua call inside the loop) has an exit decided by a Rust-side budget: an integer
+    reached through a `&mut` / Cell / atomic parameter or field (shared by the whole conversion),
+    compared inside the loop on an edge that leaves it, and written inside the loop."""
+    n = 0
+    for fn, b in sorted(ctx.prog.bodies.items()):
+        if not fn.startswith(("storage::lua_engine::", "storage::commands::lua::")) or "::tests::" in fn:
+            continue
+        if not (b.locals[0] or "").endswith("protocol::resp::RespFrame") and "RespFrame" not in (b.locals[0] or ""):
+            continue
+        if not any(re.search(r"^mlua::(value::)?Value$|^mlua::(table::)?Table$", (b.locals[l] or "").lstrip("&")) for l in range(1, b.nargs + 1)):
+            continue
+        lps = cfg.loops(b)
+        for h, body in sorted(lps.items()):
+            def reads_lua(t):
+                if re.match(r"^(<)?mlua::", t["f"] or ""):
+                    return True
+                # an iterator adaptor driven by the loop whose closure reads the Lua state
+                for c in t.get("clos") or ():
+                    cb = ctx.prog.bodies.get(c)
+                    if cb is not None and any(re.match(r"^(<)?mlua::", tt["f"] or "") for _, _, tt in shared.deep_calls(ctx, cb)):
+                        return True
+                return False
+            lua_reads = [i for i in body if b.term(i)["k"] == "call" and not b.bbs[i]["cleanup"] and reads_lua(b.term(i))]
+            if not lua_reads:
+                continue
+            n += 1
+            budget_exit = None; written = False
+            brefs = [l for l in range(1, b.nargs + 1) if _INT_REF.match(b.locals[l] or "")]
+            for i in sorted(body):
+                t = b.term(i)
+                if t["k"] != "switch" or op_is_const(t["d"]):
+                    continue
+                leaves = [x for x in [v for _, v in t["ts"]] + [t["o"]] if x not in body]
+                if not leaves:
+                    continue
+                P = prov.operand_origins(b, t["d"], deep=True)
+                lua = any(r[0] == "call" and re.match(r"^(<)?mlua::", r[1]) for r in P.roots) or any(re.match(r"^(<)?mlua::", c) for c, _ in P.via)
+                rng = any(r[0] == "call" and re.search(r"RangeFrom<.*> as std::iter::Iterator>::next", r[1]) for r in P.roots) or any(re.search(r"RangeFrom<.*> as std::iter::Iterator>::next", c) for c, _ in P.via)
+                shared_int = bool(P.params() & set(brefs)) or any(re.search(r"Atomic\w+::load|Cell::<.*>::get", c) for c, _ in P.via) or any(r[0] == "call" and re.search(r"Atomic\w+::(load|fetch_sub|fetch_add)|Cell::<.*>::get", r[1]) for r in P.roots)
+                if shared_int and not lua and not rng:
+                    budget_exit = i
+            for i in body:
+                for st in b.bbs[i]["s"]:
+                    if st["k"] == "=" and "*" in st["l"]["p"] and st["l"]["l"] in brefs:
+                        written = True
+                t = b.term(i)
+                if t["k"] == "call" and re.search(r"Atomic\w+::(fetch_sub|fetch_add|store)|Cell::<.*>::set", t["f"] or ""):
+                    written = True
+            ok = budget_exit is not None and written
+            R.inst(fn, "conversion-loop@bb%d" % 0, {"function": fn, "loop_at": b.loc(h), "reads_of_the_lua_state": len(lua_reads), "exit_decided_by_shared_budget": budget_exit is not None, "budget_written_in_loop": written})
+            if not ok:
+                R.finding(fn, "conversion-loop:no-element-budget",
+                          "%s converts a script value in a loop (line %d) that reads the Lua state and has no exit decided by a budget shared by the whole conversion: a table whose __index never yields nil, or a small table that references one child many times (2^64 nodes at 64 levels), keeps the command thread converting for ever after the script has finished -- no client is served and memory grows without bound" % (fn.split("::")[-1], b.bb_line(h)), b.loc(h))
+    R.floor("lua_to_resp_conversion_loops", n)
